@@ -18,7 +18,41 @@ LEVEL_TEXT = ("Seeded exploration with the ns->cycle conversion in the loop; ora
               "datasheet tables of the selected module, never stricter than the entry. Sampling, not proof.")
 
 
+def gen_ck(rng, tier):
+    """Spacings given in DRAM clocks (nCK) that dominate their ns value, command phases of the read and the write phase that differ, and
+    traffic that opens rows in many banks while the direction keeps flipping: the phase offset between command slots is what matters."""
+    memtype = rng.choice(["DDR", "LPDDR", "DDR2", "DDR3", "DDR3", "DDR4"])
+    core, info = coregen.gen_core(rng, lib=False, memtype=memtype, nranks=1, nports=rng.choice([2, 3, 4]), refresh=rng.random() < 0.5)
+    nph = info["nphases"]
+    m = core["module"]
+    k = rng.randint(1, 4)
+    m["tech"]["tRRD"] = [k * nph - rng.choice([0, 0, 1]) * (nph > 1), round(rng.uniform(0.1, 0.9) * core["clk_period_ps"] / 1000.0 / nph, 4)]
+    if rng.random() < 0.6:
+        f = rng.randint(max(4, 3 * k + 1), 24)
+        m["speed"]["tFAW"] = [f * nph - rng.choice([0, 0, 1]), round(rng.uniform(0.1, 0.9) * core["clk_period_ps"] / 1000.0, 4)]
+    m["tech"]["tWTR"] = [rng.randint(1, 3) * nph, m["tech"]["tWTR"][1]]
+    ph = core["phy"]
+    if nph > 1:
+        ph["rdphase"] = rng.randrange(nph)
+        ph["wrphase"] = rng.choice([p_ for p_ in range(nph) if p_ != ph["rdphase"]])
+    core["ctrl"]["read_time"] = rng.choice([4, 8, 8, 32])
+    core["ctrl"]["write_time"] = rng.choice([4, 8, 8, 16])
+    amap = coregen.amap_of(core, info)
+    nb = 1 << info["bankbits"]
+    nrows = 1 << info["rowbits"]
+    hot = [(0, b, rng.randrange(nrows)) for b in range(nb) for _ in range(2)]
+    ports = []
+    for i in range(len(core["ports"])):
+        n = rng.choice([20, 50, 100])
+        ports.append({"ops": coregen.gen_port_ops(rng, amap, info, n, hot, style=rng.choice(["rand", "sweep"]), wmix=rng.choice([0.0, 1.0, 0.5, 0.5]),
+                                                  delays=rng.choice(["zero", "zero", "small"]), id0=1 + 1000 * i)})
+    total = sum(len(p["ops"]) for p in ports)
+    return {"core": core, "ports": ports, "kind": "ck", "limits": {"max_cycles": 4000 + 80 * total, "tail": 60}}
+
+
 def gen(rng, tier, index):
+    if rng.random() < 0.15:
+        return gen_ck(rng, tier)
     lib = rng.random() < 0.45
     core, info = coregen.gen_core(rng, lib=lib, tight=rng.random() < 0.5, big_ras=rng.random() < 0.6)
     amap = coregen.amap_of(core, info)
